@@ -157,6 +157,24 @@ def ev(e, env):
             raise Raised('%s' % type(ex).__name__)
     if isinstance(e, ast.Call) and isinstance(e.func, ast.Attribute) and e.keywords and all(k.arg for k in e.keywords):
         o_ = ev(e.func.value, env)
+        mt_ = env.get('__methods__')
+        if mt_ and hasattr(o_, '__dict__') and e.func.attr in mt_ and (not isinstance(o_, Obj) or o_.__dict__.get('__world__')) and e.func.attr not in o_.__dict__:
+            fn_ = mt_[e.func.attr]
+            pn_ = [a.arg for a in fn_.args.args]
+            argv = [o_] + [ev(a, env) for a in e.args]
+            kw_ = {k.arg: ev(k.value, env) for k in e.keywords}
+            dflt_ = {a_.arg: d_.value for a_, d_ in zip(reversed(fn_.args.args), reversed(fn_.args.defaults)) if isinstance(d_, ast.Constant)}
+            for nm_ in pn_[len(argv):]:
+                if nm_ in kw_:
+                    argv.append(kw_.pop(nm_))
+                elif nm_ in dflt_:
+                    argv.append(dflt_[nm_])
+                else:
+                    raise Raised('TypeError: missing argument %s' % nm_)
+            if kw_:
+                raise Raised('TypeError: unexpected keyword %s' % sorted(kw_))
+            return call(fn_, argv, globals_=env.get('__globals__') or {k: v for k, v in env.items() if k.startswith('__')},
+                        mutable=bool(env.get('__mutable__')), methods=mt_, strict_locals=bool(env.get('__strict_locals__')), module_names=env.get('__module_names__'))
         if isinstance(o_, Obj) and callable(o_.__dict__.get(e.func.attr)):
             try:
                 return o_.__dict__[e.func.attr](*[ev(a, env) for a in e.args], **{k.arg: ev(k.value, env) for k in e.keywords})
@@ -165,8 +183,9 @@ def ev(e, env):
     if isinstance(e, ast.Call) and isinstance(e.func, ast.Attribute) and not e.keywords:
         o_ = ev(e.func.value, env)
         mt_ = env.get('__methods__')
-        if mt_ and hasattr(o_, '__dict__') and not isinstance(o_, Obj) and e.func.attr in mt_:
-            return call(mt_[e.func.attr], [o_] + [ev(a, env) for a in e.args], globals_={k: v for k, v in env.items() if k.startswith('__')})
+        if mt_ and hasattr(o_, '__dict__') and e.func.attr in mt_ and (not isinstance(o_, Obj) or o_.__dict__.get('__world__')) and e.func.attr not in vars(o_):
+            return call(mt_[e.func.attr], [o_] + [ev(a, env) for a in e.args], globals_=env.get('__globals__') or {k: v for k, v in env.items() if k.startswith('__')},
+                        mutable=bool(env.get('__mutable__')), methods=mt_, strict_locals=bool(env.get('__strict_locals__')), module_names=env.get('__module_names__'))
         if env.get('__mutable__'):
             for ty_, meths_ in MUTATORS.items():
                 if isinstance(o_, ty_) and e.func.attr in meths_:
@@ -349,6 +368,7 @@ def call(fnode, args, globals_=None, strict_locals=False, mutable=False, methods
     method build the small worlds its readers are then evaluated on; methods: {name: FunctionDef} callable on world objects"""
     params = [a.arg for a in fnode.args.args]
     env = dict(globals_ or {})
+    env['__globals__'] = dict(globals_ or {})
     # parameters the caller leaves out take their (constant) defaults
     for a_, d_ in zip(reversed(fnode.args.args), reversed(fnode.args.defaults)):
         if isinstance(d_, ast.Constant):
